@@ -20,6 +20,14 @@ def build_obs(pid, extra_deps=()):
         ml = os.path.join(d, 'ex_%s.ml' % tag)
         allml = os.path.join(d, 'all_%s.ml' % tag)
         with open(allml, 'w') as f:
-            f.write(open(ml).read()); f.write('\n'); f.write(open(os.path.join(VERIF, 'obs', 'zconv.ml')).read()); f.write('\n'); f.write(open(drv).read())
+            ext = open(ml).read()
+            f.write(ext); f.write('\n')
+            if 'type z =' in ext:
+                f.write(open(os.path.join(VERIF, 'obs', 'zconv_z.ml')).read()); f.write('\n')
+            glue = open(os.path.join(VERIF, 'obs', 'zconv.ml')).read()
+            if 'type nat =' not in ext:   # ExtrOcamlNatInt in use (or nat unused): nat is OCaml int
+                glue = glue.replace('let rec nat_of_int (n : int) : nat = if n <= 0 then O else S (nat_of_int (n - 1))', 'let nat_of_int (n : int) : int = n')
+                glue = glue.replace('let rec int_of_nat (n : nat) : int = match n with O -> 0 | S m -> 1 + int_of_nat m', 'let int_of_nat (n : int) : int = n')
+            f.write(glue); f.write('\n'); f.write(open(drv).read())
         rc, out2 = sh('ocamlfind ocamlopt -O3 -w -a %s -o %s 2>&1 || ocamlfind ocamlopt -w -a %s -o %s' % (allml, binp, allml, binp), cwd=d, timeout=600)
         return rc == 0, binp, out + out2
